@@ -96,6 +96,21 @@ def xr_url(mode, j):
     return 'http://ex.org/d%d/' % j if mode in ('url', 'both') else ''
 
 
+def alias_label(lab, lsuf):
+    base = lab[:len(lab) - len(lsuf)] if lsuf else lab
+    return base + 'b' + lsuf
+
+
+def doc_labels(i, st):
+    out = []
+    for kind, k, ver in st['items']:
+        lab = 'd%dL%d%s' % (i, k, st.get('lsuf', ''))
+        out.append(lab)
+        if kind == 'section2':
+            out.append(alias_label(lab, st.get('lsuf', '')))
+    return out
+
+
 def doc_source(i, st, m, use_xr, fancy_names=False):
     """st = {'items': [[kind, k, version], ...]}; labels d<i>L<k>.  use_xr: False | 'plain' | 'prefix' | 'url' | 'both'."""
     lines = ['\\documentclass{article}']
@@ -115,6 +130,10 @@ def doc_source(i, st, m, use_xr, fancy_names=False):
         elif kind == 'starsection':
             lines.append('\\section*{S%dx%dv%d}\\label{%s}' % (i, k, ver, lab))
             lines.append('Body s%dx%d.' % (i, k))
+        elif kind == 'section2':
+            # one object carrying TWO labels (the second name = the first + 'b'): two entries with the same data
+            lines.append('\\section{T%dx%dv%d}\\label{%s}\\label{%s}' % (i, k, ver, lab, alias_label(lab, st.get('lsuf', ''))))
+            lines.append('Body b%dx%d.' % (i, k))
         elif kind == 'emptysection':
             lines.append('\\section{}\\label{%s}' % lab)
             lines.append('Body b%dx%d v%d.' % (i, k, ver))
@@ -146,7 +165,7 @@ def expected_numbers(st):
         if kind == 'starsection':
             out[k] = (None, ver, kind)          # unnumbered: there is no number to save
             continue
-        c = 'section' if kind in ('section', 'emptysection') else kind
+        c = 'section' if kind in ('section', 'emptysection', 'section2') else kind
         n[c] += 1
         out[k] = (str(n[c]), ver, kind)
     return out
@@ -166,7 +185,7 @@ def generate(seed, tier):
     for i in range(m):
         items = []
         for k in range(r.choice([0, 1, 1, 2, 2, 3, 3, 4, 4])):
-            items.append([r.choice(['section', 'section', 'equation', 'section', 'equation', 'figure', 'item', 'emptysection', 'starsection']), k, 0])
+            items.append([r.choice(['section', 'section', 'equation', 'section', 'equation', 'figure', 'item', 'emptysection', 'starsection', 'section2']), k, 0])
         docs.append({'items': items, 'refs': [], 'next': len(items), 'fancy': r.random() < 0.4})
     if R('common').random() < 0.3:
         for d in docs:
@@ -854,7 +873,7 @@ class Sim(object):
                 if v['ref'] is None or num not in v['ref']:
                     self.violation('C20|save|number', {'label': lab, 'saved': v, 'expected': num})
                     return
-        if sorted(saved) != sorted(['d%dL%d%s' % (i, it[1], self.docs[i].get('lsuf', '')) for it in self.docs[i]['items']] + ([COMMON] if self.docs[i].get('common') else [])):
+        if sorted(saved) != sorted(doc_labels(i, self.docs[i]) + ([COMMON] if self.docs[i].get('common') else [])):
             self.violation('C20|save|labelset', {'saved': sorted(saved), 'doc': self.docs[i]['items']})
             return
         # I2 / I3 / I4: what this job restored from the other documents' files
